@@ -447,7 +447,13 @@ def input_queue():
 ARG_VALUES = ['0', '1', '-7', '9', '40', '10 ** 30', '2.5', '-0.0', '0.1 + 0.2', '1e-07', '123456.789012345', '2 / 3', "float('nan')", "float('inf')", "-float('inf')", 'True', 'None', "''", "'abc'", "'x' * 300",
               "'quote\'s \\ and \n newline'", '[]', '[1, 2, 3]', "[1, 'a', None, [2.5, (3,)]]", 'list(range(120))', '(1, 2)', '()', "('a',)",
               "{'a': 1, 'b': 2}", "{}", "{1: [1, 2], 'k': {'z': None}}", '{1, 2, 3}', 'set()', 'frozenset({1})', "[float('nan')]", "{'v': float('inf')}",
-              "b'bytes'", '(1+2j)', 'range(3)', "'naïve ✓'"]
+              "b'bytes'", '(1+2j)', 'range(3)', "'naïve ✓'",
+              # instances of subclasses of the builtin containers: they are not what their repr() evaluates to
+              "collections.OrderedDict(a=1, b=2)", "collections.Counter('aab')", "collections.defaultdict(int, k=1)",
+              "Pt(1, 2)", "Stack([1, 2])", "[collections.OrderedDict(z=0)]"]
+import collections as _collections
+#: names the argument sources above may use (evaluated by the harness, not by student code)
+ARG_NAMESPACE = {'collections': _collections, 'Pt': _collections.namedtuple('Pt', 'x y'), 'Stack': type('Stack', (list,), {})}
 CALLABLES = {  # name -> (min args, max args, accepts kwargs)
     'echo': (1, 1, False), 'pair': (1, 4, True), 'first': (1, 1, False), 'total': (1, 1, False), 'h0': (1, 2, False),
     'fact': (1, 1, False), 'deep': (1, 1, False), 'shadowed': (0, 1, False), 'bump': (0, 1, False), 'describe': (1, 2, False), 'shout': (1, 2, False), 'Acc': (1, 1, False),
